@@ -183,7 +183,7 @@ def main(tier):
     for i in range(160 if tier == "quick" else 2500):
         text, ex = g.program(depth=rng.choice([1, 2, 3]), nstmts=(2, 6))
         items.append(dict(name=f"prog{i}", text=text, exports=ex, vkey="prog"))
-    items += [it for it in gen.hybrid_programs(random.Random(run.seed + 1), 0) if not it["name"].startswith("se;") and not it["name"].endswith(";arm")]
+    items += [it for it in gen.hybrid_programs(random.Random(run.seed + 1), 0) if not it["name"].startswith("se;") and not it["name"].endswith((";arm", ";seq"))]
     # statement-expressions with 1..4 statements in front of the value (accepted or rejected - but never partly dropped)
     for n in range(1, 5):
         body = " ".join(f"v{k} = v{k} + {k + 1};" for k in range(n))
